@@ -569,6 +569,82 @@ def check_extend(case, rec):
         shutil.rmtree(tmp, ignore_errors=True)
 
 
+def check_edit(case, rec):
+    """A program that has already run successfully is edited the documented way -- a command is removed from
+    program.commands, or removed and added again under its name as a command of the other fuzziness -- and run again:
+    every consumer of that result now refers to something that does not exist / has the wrong fuzziness, and the
+    model is rejected before anything executes."""
+    from mpilot.program import Program
+
+    io = SP.CSV
+    model = case["model"]
+    cmds = model_commands(model)
+    by_name = {n["name"]: n for n in model["nodes"]}
+    consumers = {}
+    for n in model["nodes"]:
+        for r in n.get("inputs", []):
+            consumers.setdefault(r, []).append(n)
+    first = [n["name"] for n in model["nodes"] if n["cmd"] == "EEMSRead"][0]
+    mode = ("delete", "replace")[case["picks"][1] % 2]
+    cands = sorted(k for k in consumers if mode == "delete" or by_name[k]["cmd"] != "EEMSRead")
+    if mode == "delete" and first not in cands:
+        cands.append(first)  # the two writers of every model consume the first column read
+    if not cands:
+        rec.exclude("edit:no_consumed_result")
+        return []
+    victim = cands[case["picks"][0] % len(cands)]
+    was_fuzzy = by_name[victim]["cmd"] in R.FUZZY
+    if mode == "delete":
+        expect = ["ResultDoesNotExist"]
+    else:
+        strict = [c for c in consumers[victim] if c["cmd"] != "Copy"]
+        if not strict:
+            rec.exclude("edit:replacement_keeps_the_model_well_formed")
+            return []
+        expect = ["ResultNotFuzzy"] if was_fuzzy else ["ResultIsFuzzy"]
+    tmp = tempfile.mkdtemp(prefix="vcheck-c12-")
+    try:
+        M.write_table(model, os.path.join(tmp, "input.csv"))
+        try:
+            prog = Program.from_source(text_of(cmds), libraries=libraries(io), working_dir=tmp)
+            prog.run()
+        except Exception as exc:
+            rec.exclude("edit:base_model_does_not_run:%s" % type(exc).__name__)
+            return []
+        for n in range(case["picks"][2] % 2):
+            prog.run()  # (a finished program may be run any number of times)
+        del EXEC_LOG[:]
+        before = listing(tmp)
+        lib = prog.command_library
+        sig = "edit:%s:%s" % (mode, "fuzzy" if was_fuzzy else "plain")
+        try:
+            del prog.commands[victim]
+            if mode == "replace":
+                col = sorted(model["cols"])[0]
+                if was_fuzzy:
+                    prog.add_command(lib["EEMSRead"], victim, {"InFileName": "input.csv", "InFieldName": col})
+                else:
+                    prog.add_command(lib["CvtToFuzzy"], victim, {"InFieldName": first, "TrueThreshold": 1, "FalseThreshold": 0})
+            prog.add_command(lib["EEMSWrite"], "AddedWriter", {"OutFileName": "added.csv", "OutFieldNames": [first if victim != first else sorted(by_name)[0]]})
+            prog.run()
+            return [Failure(sig + "|illformed_accepted", "%s of %s accepted; expected %s\n%s" % (mode, victim, "/".join(expect), text_of(cmds)))]
+        except Exception as exc:
+            kind = type(exc).__name__
+        rec.label(sig)
+        rec.nontrivial_case(["edit", model, mode, victim])
+        fails = []
+        if kind not in expect and kind not in WELLFORMEDNESS_ERRORS:
+            fails.append(Failure(sig + "|wrong_error:%s" % kind, "expected %s after %s of %s\n%s" % ("/".join(expect), mode, victim, text_of(cmds))))
+        if EXEC_LOG:
+            fails.append(Failure(sig + "|executed_before_rejection", "execute() calls after %s of %s: %r\n%s" % (mode, victim, EXEC_LOG[:4], text_of(cmds))))
+        if listing(tmp) != before:
+            fails.append(Failure(sig + "|side_effect_before_rejection", "files written although the edited program was rejected: %r" % (
+                sorted(set(x[0] for x in listing(tmp)) - set(x[0] for x in before)),)))
+        return fails
+    finally:
+        shutil.rmtree(tmp, ignore_errors=True)
+
+
 @st.composite
 def fault_cases(draw, exhaustive_positions=True):
     model = draw(M.typed_models(max_nodes=6, clean=True))
@@ -771,7 +847,7 @@ def check_overlap(case, rec):
         shutil.rmtree(tmp, ignore_errors=True)
 
 
-PARTS = {"decl": check_decl, "pair": check_pair, "fault": check_fault, "extend": check_extend, "paths": check_paths, "overlap": check_overlap}
+PARTS = {"decl": check_decl, "pair": check_pair, "fault": check_fault, "extend": check_extend, "paths": check_paths, "overlap": check_overlap, "edit": check_edit}
 
 
 def setup_parent(ctx):
@@ -786,3 +862,4 @@ def run_shard(ctx, rec):
     drive_enum(ctx, rec, "overlap", overlap_cases(), check_overlap, exhaustive=True, max_novel=6)
     drive(ctx, rec, "fault", fault_cases(), check_fault, ctx.n(160, 4000))
     drive(ctx, rec, "extend", fault_cases(), check_extend, ctx.n(400, 8000))
+    drive(ctx, rec, "edit", fault_cases(), check_edit, ctx.n(400, 8000))
